@@ -109,6 +109,21 @@ SITES = [
         '{staticstd::uniform_int_distribution<unsigned>dist(0,std::numeric_limits<unsigned>::max());returndist(instance_.generator_);}': None}),
     ('seederSetRootSeed', 'src/Seeder.cpp', r'void\s+Seeder::setRootSeed\s*\(\s*const\s+unsigned\s+seed\s*\)\s*\{', {
         '{instance_.rootSeed_=seed;instance_.generator_.seed(instance_.rootSeed_);}': None}),
+    # round 4b: learned models, bandit models
+    ('mlSampleSR', 'include/AIToolbox/MDP/MaximumLikelihoodModel.hpp', r'MaximumLikelihoodModel<E>::sampleSR\s*\(\s*const\s+size_t\s+s\s*,\s*const\s+size_t\s+a\s*\)\s*const\s*\{', {
+        '{constsize_ts1=sampleProbability(S,transitions_[a].row(s),rand_);returnstd::make_tuple(s1,rewards_(s,a));}': None}),
+    ('sparseMlSampleSR', 'include/AIToolbox/MDP/SparseMaximumLikelihoodModel.hpp', r'SparseMaximumLikelihoodModel<E>::sampleSR\s*\(\s*const\s+size_t\s+s\s*,\s*const\s+size_t\s+a\s*\)\s*const\s*\{', {
+        '{constsize_ts1=sampleProbability(S,transitions_[a].row(s),rand_);returnstd::make_tuple(s1,rewards_.coeff(s,a));}': None}),
+    ('thompsonSampleSR', 'include/AIToolbox/MDP/ThompsonModel.hpp', r'ThompsonModel<E>::sampleSR\s*\(\s*const\s+size_t\s+s\s*,\s*const\s+size_t\s+a\s*\)\s*const\s*\{', {
+        '{constsize_ts1=sampleProbability(S,transitions_[a].row(s),rand_);returnstd::make_tuple(s1,rewards_(s,a));}': None}),
+    ('banditSampleR', 'include/AIToolbox/Bandit/Model.hpp', r'Model<Dist>::sampleR\s*\(\s*const\s+size_t\s+a\s*\)\s*const\s*\{', {
+        '{returnarms_[a](rand_);}': None}),
+    ('factoredBanditSampleR', 'include/AIToolbox/Factored/Bandit/Model.hpp', r'Model<Dist>::sampleR\s*\(\s*const\s+Action\s*&\s*a\s*\)\s*const\s*\{', {
+        '{for(size_ti=0;i<groups_.size();++i){constautoaid=toIndexPartial(groups_[i],A,a);rews_[i]=arms_[i].sampleR(aid);}returnrews_;}': None}),
+    ('flattenedBanditSampleR', 'include/AIToolbox/Factored/Bandit/FlattenedModel.hpp', r'FlattenedModel<Dist>::sampleR\s*\(\s*size_t\s+a\s*\)\s*const\s*\{', {
+        '{toFactors(model_.getA(),a,&helper_);returnmodel_.sampleR(helper_).sum();}': None}),
+    ('toFactors', 'src/Factored/Utils/Core.cpp', r'void\s+toFactors\s*\(\s*const\s+Factors\s*&\s*space\s*,\s*size_t\s+id\s*,\s*Factors\s*\*\s*out\s*\)\s*\{', {
+        '{assert(out);auto&f=*out;for(size_ti=0;i<space.size();++i){f[i]=id%space[i];id/=space[i];}}': None}),
 ]
 
 # the member initialisers of the Vose constructor belong to the modelled form as well
@@ -178,10 +193,19 @@ CTOR_FILES = [
     ('include/AIToolbox/MDP/SparseModel.hpp', r'\bSparseModel::SparseModel\s*\('), ('src/MDP/SparseModel.cpp', r'\bSparseModel::SparseModel\s*\('),
     ('include/AIToolbox/POMDP/Model.hpp', r'\bModel<M>::Model\s*\('), ('include/AIToolbox/POMDP/SparseModel.hpp', r'\bSparseModel<M>::SparseModel\s*\('),
     ('src/Factored/MDP/CooperativeModel.cpp', r'\bCooperativeModel::CooperativeModel\s*\('),
+    ('include/AIToolbox/MDP/MaximumLikelihoodModel.hpp', r'\bMaximumLikelihoodModel<E>::MaximumLikelihoodModel\s*\('),
+    ('include/AIToolbox/MDP/SparseMaximumLikelihoodModel.hpp', r'\bSparseMaximumLikelihoodModel<E>::SparseMaximumLikelihoodModel\s*\('),
+    ('include/AIToolbox/MDP/ThompsonModel.hpp', r'\bThompsonModel<E>::ThompsonModel\s*\('),
+    ('include/AIToolbox/Bandit/Model.hpp', r'\bModel<Dist>::Model\s*\('),
+    ('src/Factored/MDP/CooperativeMaximumLikelihoodModel.cpp', r'\bCooperativeMaximumLikelihoodModel::CooperativeMaximumLikelihoodModel\s*\('),
+    ('src/Factored/MDP/CooperativeThompsonModel.cpp', r'\bCooperativeThompsonModel::CooperativeThompsonModel\s*\('),
 ]
-CTOR_EXPECTED = 18
+CTOR_EXPECTED = 25
 KNOWN_UNSEEDED = {'include/AIToolbox/POMDP/Model.hpp:Model<M>::Model(NoCheck,size_to,ObservationMatrix&&ot,Args&&...params)',
                   'include/AIToolbox/POMDP/SparseModel.hpp:SparseModel<M>::SparseModel(NoCheck,size_to,ObservationMatrix&&ot,Args&&...params)'}
+# fixes/C08-9: the two learned factored models never seed their engine either
+KNOWN_UNSEEDED_FACTORED = {'src/Factored/MDP/CooperativeMaximumLikelihoodModel.cpp:CooperativeMaximumLikelihoodModel::CooperativeMaximumLikelihoodModel(constCooperativeExperience&exp,constdoublediscount,constbooltoSync)',
+                           'src/Factored/MDP/CooperativeThompsonModel.cpp:CooperativeThompsonModel::CooperativeThompsonModel(constCooperativeExperience&exp,constdoublediscount)'}
 
 
 def _ctors(src, pat):
@@ -221,7 +245,7 @@ def gen_c08_engines():
         src = E.strip_comments(E.read(rel))
         for sig, init in _ctors(src, pat):
             name = rel + ':' + sig
-            if 'rand_(Seeder::getSeed())' in init:
+            if 'rand_(Seeder::getSeed())' in init or 'rand_(AIToolbox::Seeder::getSeed())' in init:
                 seeded.append(name)
             elif 'rand_(other.rand_)' in init:
                 copied.append(name)
@@ -230,7 +254,7 @@ def gen_c08_engines():
     errs = []
     if len(seeded) + len(unseeded) + len(copied) != CTOR_EXPECTED:
         errs.append(f'expected {CTOR_EXPECTED} constructor definitions of the sampling model classes, found {len(seeded) + len(unseeded) + len(copied)}')
-    extra = [u for u in unseeded if u not in KNOWN_UNSEEDED]
+    extra = [u for u in unseeded if u not in KNOWN_UNSEEDED and u not in KNOWN_UNSEEDED_FACTORED]
     if extra:
         errs.append('constructor does not seed rand_ from Seeder::getSeed(): ' + '; '.join(extra))
     if len(copied) != 1:
@@ -243,12 +267,15 @@ def gen_c08_engines():
         errs.append('equalToleranceSmall is not 1e-6 (the property quantifies over row sums in [1-1e-6, 1+1e-6])')
     if errs:
         raise E.ExtractError('; '.join(errs))
-    pomdp_seeded = not unseeded
+    pomdp_seeded = not [u for u in unseeded if u in KNOWN_UNSEEDED]
+    factored_seeded = not [u for u in unseeded if u in KNOWN_UNSEEDED_FACTORED]
     out = ['/- GENERATED by tools/extract_c08.py from the library source — do not edit. -/', 'namespace AITB.Gen.C08', '',
            f'/-- constructors of MDP::Model, MDP::SparseModel, POMDP::Model, POMDP::SparseModel, CooperativeModel whose member initialisers contain `rand_(Seeder::getSeed())` -/',
            f'def ctorsSeeded : Nat := {len(seeded)}',
            '/-- do the NO_CHECK constructors of POMDP::Model / POMDP::SparseModel seed their engine (fixes/C08-7)? -/',
            f'def pomdpNoCheckSeeded : Bool := {"true" if pomdp_seeded else "false"}',
+           '/-- do CooperativeMaximumLikelihoodModel / CooperativeThompsonModel seed their engine (fixes/C08-9)? -/',
+           f'def factoredLearnedSeeded : Bool := {"true" if factored_seeded else "false"}',
            '', 'end AITB.Gen.C08', '']
     E.write_if_changed('C08Engines', '\n'.join(out))
 
